@@ -28,7 +28,8 @@ EXPLANATION = (
     ' (R16) every backend operation does its work and both listings keep every entry (C20.R8).'
     " (R19) only the two committers write the pointer (write-namespace census, C09.R1): no lock-free 'repair' of the hint."
     ' R11 also forbids ordering over text (file names, regex groups, tuples starting with one); R15 requires the published content to be the bare name; (R20) the local mtime is returned untruncated.'
-    ' (R21) the name _new_metadata_filename builds is in the language of the metadata regex (scenario); (R22) version numbers are never truth-tested; R11 also forbids a text component before the mtime in any max / min / sorted over recovery candidates; R1 reads regexes assembled from named pieces.')
+    ' (R21) the name _new_metadata_filename builds is in the language of the metadata regex (scenario); (R22) version numbers are never truth-tested; R11 also forbids a text component before the mtime in any max / min / sorted over recovery candidates; R1 reads regexes assembled from named pieces.'
+    ' (R23) hint-less recovery by scenario: over a scripted listing of two files of ONE version (either order) the more recently modified one is resolved, and a higher version wins over a newer file of a lower version.')
 NOT_DECIDED = ("byte-level pointer grammar x histories at run time; orphans left by a crash (no exception path exists to "
                "clean them - format limitation)")
 
@@ -520,6 +521,11 @@ def r11(ctx: Ctx, rid: str = "C10.R11") -> None:
                         continue
                     if dn.kind == "loop" and isinstance(dn.ast, ast.For):
                         tg, it = dn.ast.target, dn.ast.iter
+                        if isinstance(it, ast.Call) and id(it) in g.inline_returns:
+                            # `for version, name in self._candidates(files):` with the helper analysed in place: the list it returns
+                            rn = {e_.id for e_, _n in g.inline_returns[id(it)] if isinstance(e_, ast.Name)}
+                            if len(rn) == 1 and len(rn) == len(g.inline_returns[id(it)]):
+                                it = ast.Name(id=next(iter(rn)), ctx=ast.Load())
                         if isinstance(tg, (ast.Tuple, ast.List)) and isinstance(it, ast.Name):
                             # `for version, name in candidates:` over a local list of tuples built in this function: the
                             # element's kind is the kind of what was appended
